@@ -625,7 +625,7 @@ def gen_many(r, n, depth=4):
     return out[:max(n, len(directed()))]
 
 
-LAYOUTS = 7
+LAYOUTS = 9
 
 
 def gen_layouts(r, n):
